@@ -156,9 +156,11 @@ func c17Cell(e *core.Env, r *core.Rand, file string, today ref.Date, minute, rou
 	case "explicit-today":
 		d := today
 		cmd.Date = &d
+		cmd.DateSlash = r.Bool() // both notations of the date argument denote the same day
 	case "explicit-other":
 		d := today.Plus(r.PickInt(-1, 1, -9, 3))
 		cmd.Date = &d
+		cmd.DateSlash = r.Bool()
 	}
 	if kind == "start" && r.Chance(1, 4) {
 		cmd.Summary = []string{"task"}
